@@ -366,11 +366,15 @@ func judge(pc podCase, o *outcome) []finding {
 			if o.PgcRecvErr != "" {
 				add("podgroupcontroller-rejects-accepted stage=received "+portionAnn.tag(false), "%s", short(o.PgcRecvErr, 200))
 			} else {
+				// the allocated share of the pod is devices x per-device portion, exactly as the
+				// "requested" stage above and as the scheduler charges it (the reference used to be
+				// the per-device portion, mirroring the controller before fix 05cc6da; corrected)
 				want := fr.ref.Rat
 				if !fr.present {
 					want = new(big.Rat).Quo(me.ref.Rat, big.NewRat(nodeGPUMemoryMiB, 1))
 				}
-				if !near(ratOfQuantity(o.PgcRecvGPU), want, relTol, relTol) {
+				want = new(big.Rat).Mul(wantCount, want)
+				if !near(ratOfQuantity(o.PgcRecvGPU), want, new(big.Rat).Mul(wantCount, relTol), relTol) {
 					add("podgroupcontroller-alters-accepted stage=received "+portionAnn.tag(false), "received %v, reference %s", o.PgcRecvGPU, want.FloatString(12))
 				}
 			}
